@@ -6,4 +6,5 @@ TARGETS = {
     'stdlocks': dict(cfg='fib', src=['harness/stdlocks.cpp'], cflags=f'-O1 -g1 {ASAN}', libs='-lrapidcheck'),
     'repro': dict(cfg='fib', src=['harness/repro.cpp'], cflags=f'-O1 -g1 {ASAN}', libs='-lrapidcheck'),
     'exec': dict(cfg='fib', src=['harness/exec.cpp'], cflags=f'-O1 -g1 {ASAN}', libs='-lrapidcheck'),
+    'shared': dict(cfg='fib', src=['harness/shared.cpp'], cflags=f'-O1 -g1 {ASAN}', libs='-lrapidcheck'),
 }
